@@ -60,4 +60,11 @@ def io_contention {μ} [MemLike μ] (_cfg : Cfg) (m : μ) (port : Int) : List (I
   else
     if ioContended m port then [(0x4000, 1), (0x4000, 3)] else [(0, 1), (0x4000, 3)]
 
+
+/-- `CMIOSimulator.__init__` + `simutils.from_memory`: frame duration, interrupt length and the
+contended window `(t0, t1)` chosen by `len(memory) == 0x20000`. -/
+def cfgFor (is128 : Bool) : Cfg :=
+  if is128 then { frame_duration := 70908, int_active := 36, t0 := 14361 - 23, t1 := 58035 }
+  else { frame_duration := 69888, int_active := 32, t0 := 14335 - 23, t1 := 57245 }
+
 end Contend
